@@ -279,7 +279,17 @@ class World:
         import pandas as pd
         labels = list(range(self.n, self.n + k))
         df = key_frame(labels, self.key_cols, lambda l: pd.Timestamp("2000-01-01") + pd.Timedelta(days=l))
-        self.mgr.register_simulants(df)
+        import signal
+
+        def hung(sig, frame):
+            raise TimeoutError("register_simulants did not return within 30 s (collision resolution does not terminate)")
+        old = signal.signal(signal.SIGALRM, hung)
+        signal.alarm(30)
+        try:
+            self.mgr.register_simulants(df)
+        finally:
+            signal.alarm(0)
+            signal.signal(signal.SIGALRM, old)
         self.n += k
 
     def step(self):
@@ -320,6 +330,40 @@ class World:
         from vivarium.framework.randomness.index_map import IndexMap
         from vivarium.framework.randomness.stream import RandomnessStream
         return RandomnessStream(stream.key, stream.clock, stream.seed, IndexMap(size=len(self.imap)))
+
+
+def next_prime(n):
+    """Next prime >= n that does not divide 111111 = 3*7*11*13*37: IndexMap spreads an integer salt by *111111, so in a map
+    whose size divides 111111 re-salting moves nothing and the real collision loop never ends (liveness, DESIGN.md F-J)."""
+    n = max(int(n), 5)
+    while any(n % q == 0 for q in range(2, int(n ** 0.5) + 1)) or 111111 % n == 0:
+        n += 1
+    return n
+
+
+def dense_map_size(rng, total):
+    """A map in which `total` simulants fill 30-80% of the positions.  Prime, so that the salt walk of the collision
+    resolution (step = number of key columns) reaches every position and the real loop terminates (DESIGN.md F-J)."""
+    return next_prime(total / rng.uniform(0.3, 0.8) + 1)
+
+
+def position_problems(im, labels, size):
+    """Through the PUBLIC lookup index_map[Index([label])]: every registered simulant's position must be a valid index of
+    the block, 0 <= p < len(index_map), and no two simulants may share a block element."""
+    import pandas as pd
+    seen = {}
+    for l in labels:
+        try:
+            q = int(im[pd.Index([l], dtype="int64")][0])
+        except Exception:
+            continue
+        if not (0 <= q < size):
+            return f"registered simulant {l} has position {q} outside [0, {size})"
+        eff = q % size
+        if eff in seen:
+            return f"simulants {seen[eff]} and {l} share block element {eff}: they get identical draws at every time and key"
+        seen[eff] = l
+    return None
 
 
 def assoc_literal(labs, poss):
@@ -381,13 +425,12 @@ def gen_req(rng: random.Random):
     streams = [[n, (rng.random() < 0.2)] for n in names]
     if all(c for _, c in streams):
         streams[0][1] = False
-    pop = rng.choice([1, 2, 3, 5, 8, 12])
+    pop = rng.choice([1, 2, 3, 5, 8, 12, 20])
     spec = {"world": world, "key_cols": key_cols, "streams": streams, "pop": pop,
             "map_size": rng.choice([40, 64, 150, 150, 1000, 1000, 5000, 20000] if rng.random() < 0.95 else [1_000_000]),
             "seed": [rng.choice([0, 1, 12, 123, 98765]), rng.choice([None, None, 3, 23, 0])],
             "births": rng.choice([0, 0, 1, 2, 3])}
-    if spec["map_size"] < 10 * pop and world == "mgr":
-        spec["map_size"] = 10 * pop + 7
+    dense = world == "mgr" and key_cols and rng.random() < 0.45
     if world == "mgr":
         spec["clock0"] = rng.choice([["ts", "2021-03-04"], ["ts", "1999-12-31 12:00:00"], ["int", 0], ["int", 17]])
         spec["late_registration"] = rng.random() < 0.25
@@ -417,6 +460,11 @@ def gen_req(rng: random.Random):
                 "idx": [rng.choice(["perm", "subperm", "repeat", "full"]), rng.getrandbits(30)], "addl": gen_addl(rng)})
     ops.append({"op": "repeat_last"})
     spec["ops"] = ops
+    if dense:
+        # population 30-80% of the map (all registrations of the history included): colliding keys are the rule
+        total = pop + sum(o.get("k", 0) for o in ops if o["op"] == "register")
+        spec["map_size"] = dense_map_size(rng, total)
+        spec["dense"] = True
     return spec
 
 
@@ -475,6 +523,14 @@ def _run_req(case):
             t[p] = di
         return sid, t
 
+    def check_positions():
+        if case["key_cols"]:
+            prob = position_problems(w.imap, w.labels(), len(w.imap))
+            if prob:
+                fail(prob)
+
+    check_positions()
+
     def observe(sname, idx, addl_spec, via="get_draw"):
         nonlocal mp, size, nontrivial
         stream = w.streams[sname]
@@ -526,6 +582,11 @@ def _run_req(case):
                 for l, di in zip(idx, ints):
                     if seen.setdefault(l, di) != di:
                         fail(f"label {l} got two different draws inside one request {idx}")
+                by_draw = {}
+                for l, di in seen.items():
+                    if 0 <= l < w.n and by_draw.setdefault(di, l) != l:        # real (registered) simulants only
+                        fail(f"stream {sname} addl {addl!r}: distinct simulants {by_draw[di]} and {l} got the identical "
+                             f"draw {di}/2^53 (same block element)")
                 for l in sorted(set(idx)):
                     one = stream.get_draw(pd.Index([l], dtype="int64"), addl)
                     oi, _ = to_int(one.iloc[0])
@@ -547,12 +608,14 @@ def _run_req(case):
         if pending_at is not None and i == pending_at:
             w.register(w.pending)
             w.pending = 0
+            check_positions()
             if w.map_assoc() is not None:
                 cops.append("CRegister " + w.map_assoc()[0])
         kind = o["op"]
         if kind == "step":
             before = w.map_assoc()
             w.step()
+            check_positions()
             after = w.map_assoc()
             if after is not None and (before is None or after[0] != before[0]):
                 cops.append("CRegister " + after[0])
@@ -560,6 +623,7 @@ def _run_req(case):
             continue
         if kind == "register":
             w.register(o["k"])
+            check_positions()
             if w.map_assoc() is not None:
                 cops.append("CRegister " + w.map_assoc()[0])
             tags.add("register")
@@ -814,6 +878,9 @@ def gen_mgr(rng: random.Random):
             nreg += 1
     ops.append({"op": "draw", "which": 0, "idx": ["perm", rng.getrandbits(30)], "addl": None})
     spec["ops"] = ops
+    if spec["key_cols"] and rng.random() < 0.5:
+        spec["map_size"] = dense_map_size(rng, sum(o.get("k", 0) for o in ops if o["op"] == "register"))
+        spec["dense"] = True
     return spec
 
 
@@ -913,6 +980,10 @@ def run_mgr(case):
         elif kind == "register":
             w.register(o["k"])
             script.append(("register", o["k"]))
+            if crn_world and created:
+                prob = position_problems(next(iter(created.values()))[0].index_map, list(range(w.n)), size)
+                if prob:
+                    fail(prob)
             tags.add("register")          # the shared map is read (through a stream) and passed to the model before the next draw
         elif kind == "step":
             w.step()
@@ -933,6 +1004,10 @@ def run_mgr(case):
             name = sorted(created)[o["which"] % len(created)]
             st, crn = created[name]
             mp = current_map()
+            if crn_world:
+                prob = position_problems(st.index_map, list(range(w.n)), size)
+                if prob:
+                    fail(prob)
             if mp and mp != last_map[0]:
                 mops.append("MReg " + assoc_literal(*zip(*sorted(mp.items()))))
                 last_map[0] = dict(mp)
@@ -973,6 +1048,10 @@ def run_mgr(case):
                     if q not in t:
                         t[q] = to_int(tw.get_draw(pd.Index([q], dtype="int64"), addl).iloc[0])[0]
             if code == 0 and idx and not crn:
+                by_draw = {}
+                for l, di in zip(idx, ints):
+                    if 0 <= l < w.n and by_draw.setdefault(di, l) != l:        # real (registered) simulants only
+                        fail(f"stream {name!r}: distinct simulants {by_draw[di]} and {l} got the identical draw {di}/2^53")
                 for l, di in zip(idx, ints):
                     q = l if not crn_world else (mp or {}).get(l)
                     q = None if q is None else np_wrap(size, q)
